@@ -425,6 +425,15 @@ func (x *Exec) unsupported(what string) {
 	panic(abortT{})
 }
 
+// NoBranch stops branching for the rest of the execution (default choices
+// only): used by a harness once the concurrent phase is over and only the
+// final observation remains.
+func NoBranch() {
+	if X != nil {
+		X.cacheHit = true
+	}
+}
+
 // Obs records an observation of the harness (compared across executions).
 func Obs(s string) {
 	if X != nil {
